@@ -224,12 +224,51 @@ def local_display(root: ast.AST, name: str) -> Optional[ast.AST]:
     stores = [x for x in ast.walk(root) if isinstance(x, ast.Name) and x.id == name and isinstance(x.ctx, (ast.Store, ast.Del))]
     loads = [x for x in ast.walk(root) if isinstance(x, ast.Name) and x.id == name and isinstance(x.ctx, ast.Load)]
     defs = [x for x in ast.walk(root) if isinstance(x, ast.Assign) and len(x.targets) == 1 and isinstance(x.targets[0], ast.Name) and x.targets[0].id == name]
-    if len(stores) != 1 or len(defs) != 1 or len(loads) != 1 or name in {a.arg for a in root.args.args + root.args.kwonlyargs + root.args.posonlyargs}:
+    if len(stores) != 1 or len(defs) != 1 or not loads or name in {a.arg for a in root.args.args + root.args.kwonlyargs + root.args.posonlyargs}:
         return None
     v = defs[0].value
+    if len(loads) != 1:
+        # read several times: fine for a tuple of constants / of names that are themselves bound exactly once (nothing can change in between)
+        def fixed(x):
+            if isinstance(x, ast.Constant):
+                return True
+            if isinstance(x, ast.Name):
+                return sum(1 for y in ast.walk(root) if isinstance(y, ast.Name) and y.id == x.id and isinstance(y.ctx, (ast.Store, ast.Del))) <= 1
+            return False
+        if not (isinstance(v, ast.Tuple) and all(fixed(x) for x in v.elts)):
+            if not (isinstance(v, ast.Tuple) and all(isinstance(x, (ast.Name, ast.Constant)) for x in v.elts) and _same_definitions(root, defs[0], loads, {x.id for x in v.elts if isinstance(x, ast.Name)})):
+                return None
     if isinstance(v, (ast.Tuple, ast.List)) and not any(isinstance(x, ast.Starred) for x in v.elts):
         return v
     return zip_to_display(v)
+
+
+def _same_definitions(root, def_stmt, loads, names) -> bool:
+    """At every one of `loads`, each of `names` still has exactly the definitions it had when def_stmt ran (reaching definitions)."""
+    try:
+        from .cfg import build_cfg, node_exprs
+        from .defuse import reaching_defs
+        cfg = build_cfg(root)
+        params = [a.arg for a in root.args.posonlyargs + root.args.args + root.args.kwonlyargs] + ([root.args.vararg.arg] if root.args.vararg else []) + ([root.args.kwarg.arg] if root.args.kwarg else [])
+        RD = reaching_defs(cfg, params)
+    except Exception:
+        return False
+    at_def = None
+    for node in cfg.nodes:
+        if node.ast is def_stmt:
+            at_def = {(x, d) for (x, d) in (RD.get(node.id) or ()) if x in names}
+    if at_def is None:
+        return False
+    wanted = {id(l) for l in loads}
+    seen = 0
+    for node in cfg.nodes:
+        for e in node_exprs(node):
+            for x in ast.walk(e):
+                if id(x) in wanted:
+                    seen += 1
+                    if {(y, d) for (y, d) in (RD.get(node.id) or ()) if y in names} != at_def:
+                        return False
+    return seen >= len(wanted)
 
 
 def unroll_comprehension(n: ast.AST, root: Optional[ast.AST] = None) -> Optional[ast.AST]:
@@ -825,7 +864,7 @@ class Inliner:
                     if r is not None:
                         count[0] += 1
                         return self.visit(at(r, n))
-                if isinstance(n.ctx, ast.Load):
+                if isinstance(n.ctx, ast.Load) and isinstance(n.value, ast.Dict):
                     r = table_lookup_to_conditional(n, bools_of(root))
                     if r is not None:
                         count[0] += 1
@@ -1374,10 +1413,76 @@ def inline_explaining_variables(fn: ast.AST) -> int:
     return count[0]
 
 
+def inline_function_values(fn: ast.AST) -> int:
+    """`channel = partial(f, component=True)` / `to_channel = lambda t: int(round(channel(t)))`: a local bound (everywhere to the very same
+    expression) to a function value built from names that never change is written out where it is read."""
+    if not isinstance(fn, (ast.FunctionDef, ast.AsyncFunctionDef)):
+        return 0
+    params = {a.arg for a in fn.args.args + fn.args.kwonlyargs + fn.args.posonlyargs}
+    total = 0
+    for _ in range(8):
+        names = [n for n in ast.walk(fn) if isinstance(n, ast.Name)]
+        store_count: Dict[str, int] = {}
+        for n in names:
+            if isinstance(n.ctx, (ast.Store, ast.Del)):
+                store_count[n.id] = store_count.get(n.id, 0) + 1
+        defs: Dict[str, List[ast.Assign]] = {}
+        for st in ast.walk(fn):
+            if isinstance(st, ast.Assign) and len(st.targets) == 1 and isinstance(st.targets[0], ast.Name):
+                defs.setdefault(st.targets[0].id, []).append(st)
+        done = 0
+        for name, sts in defs.items():
+            v = sts[0].value
+            is_partial = isinstance(v, ast.Call) and isinstance(v.func, ast.Name) and v.func.id == "partial" and v.args and all(simple_arg(a) for a in v.args) \
+                and all(k.arg and simple_arg(k.value) for k in v.keywords)
+            if not (isinstance(v, ast.Lambda) or is_partial) or name in params or store_count.get(name, 0) != len(sts) or len({ast.dump(x.value) for x in sts}) != 1:
+                continue
+            bound = {a.arg for a in ast.walk(v) if isinstance(a, ast.arg)}
+            free = {n.id for n in ast.walk(v) if isinstance(n, ast.Name) and n.id not in bound}
+            if name in free or any(store_count.get(f, 0) > 1 or (f in params and store_count.get(f, 0) > 0) for f in free):
+                continue
+            if any(f in defs and (isinstance(defs[f][0].value, ast.Lambda) or (isinstance(defs[f][0].value, ast.Call) and isinstance(defs[f][0].value.func, ast.Name) and defs[f][0].value.func.id == "partial")) for f in free):
+                continue        # built from another function value that is written out first (next round)
+            loads = [n for n in names if n.id == name and isinstance(n.ctx, ast.Load)]
+            if not loads:
+                continue
+            up = {}
+            for p_ in ast.walk(fn):
+                for ch in ast.iter_child_nodes(p_):
+                    up[id(ch)] = p_
+            from .normalize2 import replace_child
+            for ld in loads:
+                replace_child(up.get(id(ld)), ld, ast.copy_location(copy.deepcopy(v), ld))
+            dead = {id(x) for x in sts}
+
+            def strip(stmts):
+                out = []
+                for st in stmts:
+                    if id(st) in dead:
+                        continue
+                    for fld in ("body", "orelse", "finalbody"):
+                        if getattr(st, fld, None) and not isinstance(st, (ast.FunctionDef, ast.AsyncFunctionDef, ast.ClassDef)):
+                            setattr(st, fld, strip(getattr(st, fld)) or [ast.Pass()])
+                    for h in getattr(st, "handlers", []) or []:
+                        h.body = strip(h.body) or [ast.Pass()]
+                    out.append(st)
+                return out
+            fn.body = strip(fn.body) or [ast.Pass()]
+            done += 1
+            break       # recompute the census after every substitution
+        total += done
+        if not done:
+            break
+    if total:
+        ast.fix_missing_locations(fn)
+    return total
+
+
 def inline_callable_aliases(fn: ast.AST) -> int:
     """`escape = html.escape` / `append = parts.append` followed by `escape(x)` / `append(y)`: the alias is written out at its
     call sites (the local is bound once, only ever called, and what it abbreviates cannot be rebound in between)."""
     count = [0]
+    count[0] += inline_function_values(fn)
     names = [n for n in ast.walk(fn) if isinstance(n, ast.Name)]
     params = {a.arg for a in fn.args.args + fn.args.kwonlyargs + fn.args.posonlyargs}
 
@@ -1489,12 +1594,14 @@ def normalize(project) -> List[str]:
     inl = Inliner(project, base_funcs, base_consts)
     inl.log += renamed
     for _round in range(3):
-        changed = inl.run() if _round else (inl.run() or 1)
-        if not changed:
-            break
+        before = {q: ast.dump(fi.node) for q, fi in project.funcs.items()} if _round == 0 else before
+        changed = inl.run()
         again = 0
-        for fi in project.funcs.values():
-            again += style_passes(fi.node)
+        for q, fi in project.funcs.items():
+            now = ast.dump(fi.node)
+            if now != before.get(q):        # only what the inliner touched needs the style passes again
+                again += style_passes(fi.node)
+                before[q] = ast.dump(fi.node)
         if not again:
             break
     for fi in project.funcs.values():
